@@ -5,6 +5,7 @@ from ..front_common import hx, parse_diags
 
 ALLOWED_AXIOMS = ()
 COMPONENT = "cycles"
+NEEDS_SLICEC = True
 
 # wrapper forms: (slice text with %s for the target, model type tokens with %s for "N k")
 WRAPPERS = [("%s", "%s"), ("%s?", "%s"), ("Sequence<%s>", "Q %s"), ("Sequence<%s?>", "Q %s"),
@@ -156,6 +157,24 @@ def run(ck):
             ck.violation("with-unrelated-defect", "cycle-hidden-by-other-defect" if len(obs) < len(exp) else ("acyclic-flagged" if not exp else "report-differs"), text, repr(exp), repr(obs),
                          signature={"defect": name})
 
+    # 1g. the same programs given as reference files to the binary: what is reported does not depend on the file's role
+    from .. import driver_common as dc
+    pick_r = rng.sample(cyc, min(len(cyc), 120 if ck.tier == "quick" else 1200)) + rng.sample(acy, min(len(acy), 40 if ck.tier == "quick" else 400))
+    rl = [dc.run_line(False, ["--diagnostic-format", "json", "--dry-run"], [], [("S", "main.slice", "module Main\nstruct Unrelated { a: int32 }\n"), ("R", "types.slice", t)]) for t, _ in pick_r]
+    orr = dc.run_all(rl, chunk=10)
+    ck.stream("reference-files", description="cyclic and acyclic containment programs of the first stream given to the slicec binary as a reference file next to an unrelated source file; "
+              "observable: one E032 error per report of the model, exit status, no crash")
+    for (text, mo), line, oo in zip(pick_r, rl, orr):
+        ck.count("reference-files", line, kind="cyclic" if mo != "none" else "acyclic")
+        r = dc.parse_run(oo)
+        if r is None or r["exit"] not in ("0", "1"):
+            ck.violation("reference-files", "crash", text, "a verdict", (oo[:200] if r is None else "exit=%s %s" % (r["exit"], r["stderr"][-200:].decode("utf-8", "replace"))), signature={"role": "reference"})
+            continue
+        n32 = sum(1 for d in dc.json_diags(r["stderr"]) if d.get("error_code") == "E032")
+        want = len(expected_reports(mo))
+        if n32 != want or (want > 0 and r["exit"] != "1"):     # other errors (an illegal dictionary key) may be reported besides
+            ck.violation("reference-files", "cycle-missed-in-reference-file" if n32 < want else "report-differs", text, "%d E032 report(s)%s" % (want, ", exit 1" if want else ""), "%d E032 report(s), exit %s" % (n32, r["exit"]),
+                         signature={"role": "reference"})
     # 2. alias graphs: each alias is a primitive, another alias, or an anonymous type over aliases
     forms = [("int32", []), ] 
     def alias_forms(n):
@@ -206,6 +225,17 @@ def run(ck):
             bases = [b for (a, b) in es if a == i]
             out.append("interface I%d%s { op%d() }" % (i, (" : " + ", ".join("I%d" % b for b in bases)) if bases else "", i))
         return "\n".join(out) + "\n"
+    # the same graphs with every interface called I, each in a module of its own (one file per module): names are told apart by their scope
+    def itext_same(c):
+        n, es = c
+        out = []
+        for i in range(n):
+            bases = [b for (a, b) in es if a == i]
+            out.append("module N%d\ninterface I%s { op%d() }\n" % (i, (" : " + ", ".join("N%d::I" % b for b in bases)) if bases else "", i))
+        return out
+    same = [c for c in icases if c[0] <= 3] + rng.sample([c for c in icases if c[0] > 3], min(1500 if ck.tier == "quick" else 15000, len([c for c in icases if c[0] > 3])))
+    _graph_family(ck, "inheritance-same-names", same, itext_same, lambda c: [[b for (a, b) in c[1] if a == i] for i in range(c[0])], {"E032"},
+                  "the same base-list assignments with every interface named I, each in a module and file of its own; observable: rejected with E032 or accepted, no crash or hang")
     _graph_family(ck, "inheritance-loops", icases, itext, lambda c: [[b for (a, b) in c[1] if a == i] for i in range(c[0])], {"E032"},
                   "interfaces with every base-list assignment (incl. diamonds and self-inheritance); observable: rejected with E032 or accepted, no crash or hang")
     ck.extra["exhaustive"] = True
@@ -218,7 +248,8 @@ def _graph_family(ck, name, cases, text_of, adj_of, reject_codes, desc):
     texts = [text_of(c) for c in cases]
     mlines = ["graph " + " / ".join((",".join(str(x) for x in a) if a else "-") for a in adj_of(c)) for c in cases]
     m = core.run_model("cycles", mlines, chunk=5000)
-    o = core.run_impl("diags", ["diags - " + hx(t) for t in texts], chunk=200, timeout=60)
+    o = core.run_impl("diags", ["diags - " + (hx(t) if isinstance(t, str) else " ".join(hx(x) for x in t)) for t in texts], chunk=200, timeout=60)
+    texts = [t if isinstance(t, str) else "\n-- next file --\n".join(t) for t in texts]
     ck.stream(name, description=desc)
     for t, ml, mo, oo in zip(texts, mlines, m, o):
         ck.count(name, t, kind=mo)
